@@ -29,6 +29,7 @@ const (
 const (
 	kindCor = iota
 	kindDoNotation
+	kindNewAndStart // created and started in one call (starts before the target unless Eager is off... see below)
 )
 
 type callerSpec struct {
@@ -45,15 +46,18 @@ type scenario struct {
 	StartWithVal bool         `json:"startWithVal"`
 	// Eager: the callers are started BEFORE the target and spin until target.IsStarted()
 	// before their first YieldFrom (so requests race with Start/StartWithVal itself)
-	Eager bool      `json:"eager"`
-	Plan  vlib.Plan `json:"plan"`
+	Eager bool `json:"eager"`
+	// Restart: after the target has been started, Start()/StartWithVal() are called again on it
+	// (a started coroutine ignores them: no second effect, no phantom request)
+	Restart int       `json:"restart"` // 0 none, 1 Start(), 2 StartWithVal(x), 3 both
+	Plan    vlib.Plan `json:"plan"`
 }
 
 func (s scenario) String() string {
 	var sb strings.Builder
-	fmt.Fprintf(&sb, "shape=%s startWithVal=%v eager=%v callers=", []string{"fixed", "echo", "accumulate"}[s.Shape], s.StartWithVal, s.Eager)
+	fmt.Fprintf(&sb, "shape=%s startWithVal=%v eager=%v restart=%d callers=", []string{"fixed", "echo", "accumulate"}[s.Shape], s.StartWithVal, s.Eager, s.Restart)
 	for _, c := range s.Callers {
-		fmt.Fprintf(&sb, "[%s k=%d io@%d h=%v gap=%d]", []string{"cor", "do"}[c.Kind], c.K, c.IOAt, c.IOHandler, c.Gap)
+		fmt.Fprintf(&sb, "[%s k=%d io@%d h=%v gap=%d]", []string{"cor", "do", "newAndStart"}[c.Kind], c.K, c.IOAt, c.IOHandler, c.Gap)
 	}
 	fmt.Fprintf(&sb, " plan=%v", s.Plan)
 	return sb.String()
@@ -74,7 +78,7 @@ func genScenario(t *rapid.T) scenario {
 		}
 		k := rapid.IntRange(1, maxK).Draw(t, "k")
 		remaining -= k
-		c := callerSpec{K: k, Kind: rapid.IntRange(0, 1).Draw(t, "kind"), IOAt: -1, Gap: rapid.IntRange(0, 3).Draw(t, "gap")}
+		c := callerSpec{K: k, Kind: rapid.SampledFrom([]int{kindCor, kindCor, kindDoNotation, kindNewAndStart}).Draw(t, "kind"), IOAt: -1, Gap: rapid.IntRange(0, 3).Draw(t, "gap")}
 		if rapid.IntRange(0, 3).Draw(t, "io") == 0 {
 			c.IOAt = rapid.IntRange(0, k-1).Draw(t, "ioAt")
 			c.IOHandler = rapid.Bool().Draw(t, "ioHandler")
@@ -83,6 +87,7 @@ func genScenario(t *rapid.T) scenario {
 	}
 	s.StartWithVal = rapid.Bool().Draw(t, "startWithVal")
 	s.Eager = rapid.Bool().Draw(t, "eager")
+	s.Restart = rapid.SampledFrom([]int{0, 0, 1, 2, 3}).Draw(t, "restart")
 	s.Plan = vlib.DrawPlan(t, corPoints, 6)
 	return s
 }
@@ -124,6 +129,9 @@ func runScenario(s scenario) result {
 	}
 	h := fpgo.Handler.NewByCh(make(chan func(), 8))
 	defer h.Close()
+	hIDCh := make(chan uint64, 1)
+	h.Post(func() { hIDCh <- vlib.GoID() })
+	hID := <-hIDCh
 
 	var targetLog []pair // target goroutine only, read after it finished
 	var target *fpgo.CorDef[int]
@@ -173,11 +181,15 @@ func runScenario(s scenario) result {
 		for j := 0; j < spec.K; j++ {
 			if spec.IOAt == j {
 				want := 9000 + i
-				io := fpgo.MonadIOJustGenerics(want)
+				var effG uint64
+				io := fpgo.MonadIONewGenerics(func() int { effG = vlib.GoID(); return want })
 				if spec.IOHandler {
 					io = io.ObserveOn(h)
 				}
 				ioResults[i] = [2]int{want, self.YieldFromIO(io)}
+				if spec.IOHandler && effG != hID {
+					fail("C14/yieldFromIO-handler", "caller %d: the effect of a MonadIO observed on a handler did not run on that handler's goroutine", i)
+				}
 			}
 			x := (i+1)*1000 + j
 			y := self.YieldFrom(target, x)
@@ -217,6 +229,12 @@ func runScenario(s scenario) result {
 		} else {
 			target.Start()
 		}
+		if s.Restart&1 != 0 {
+			target.Start()
+		}
+		if s.Restart&2 != 0 {
+			target.StartWithVal(888888)
+		}
 	}
 	if !s.Eager {
 		startTarget()
@@ -228,6 +246,22 @@ func runScenario(s scenario) result {
 		switch spec.Kind {
 		case kindCor:
 			cors[i].Start()
+		case kindNewAndStart:
+			var c *fpgo.CorDef[int]
+			ready := make(chan struct{})
+			var factory fpgo.CorDef[int]
+			c = factory.NewAndStart(func() {
+				defer wg.Done()
+				<-ready // c is assigned once NewAndStart returned
+				if c.IsStarted() {
+					atomic.AddInt32(&startedInside, 1)
+				}
+				if p, st := vlib.Try(func() { callerBody(i, c) }); p != nil {
+					fail("C14/panic", "caller %d panicked: %v\n%s", i, p, st)
+				}
+			})
+			cors[i] = c
+			close(ready)
 		case kindDoNotation:
 			go doNotationCaller(&wg, fail, func() {
 				var d fpgo.CorDef[int]
@@ -398,6 +432,7 @@ func report(t vlib.TB, s scenario, res result, skip func()) {
 func TestRegress(t *testing.T) {
 	cases := []scenario{
 		{Shape: shapeFixed, Callers: []callerSpec{{K: 3, IOAt: -1}}},
+		{Shape: shapeFixed, Callers: []callerSpec{{K: 5, IOAt: -1}}, Restart: 3},
 		{Shape: shapeFixed, Callers: []callerSpec{{K: 3, IOAt: -1}, {K: 3, IOAt: -1}, {K: 2, IOAt: -1, Kind: kindDoNotation}}, StartWithVal: true, Eager: true},
 		{Shape: shapeEcho, Callers: []callerSpec{{K: 8, IOAt: -1}, {K: 8, IOAt: 2, IOHandler: true}}, StartWithVal: true},
 		{Shape: shapeAccumulate, Callers: []callerSpec{{K: 5, Kind: kindDoNotation, IOAt: 0}, {K: 5, IOAt: -1}, {K: 5, Kind: kindDoNotation, IOAt: -1}}},
@@ -432,7 +467,7 @@ func TestReplayJSON(t *testing.T) {
 }
 
 func TestScenarios(t *testing.T) {
-	vlib.Check(t, "scenarios", 3000, 8000, func(t *rapid.T) {
+	vlib.Check(t, "scenarios", 3000, 40000, func(t *rapid.T) {
 		s := genScenario(t)
 		st := vlib.S()
 		st.Eval("scenarios")
